@@ -109,13 +109,12 @@ def _frame(b, tr):
 
 class Obs:
     def __init__(self):
-        self.hooks = []      # (name, request (id, qkey) | None, response key | None, has_error)
+        self.hooks = []      # (name, request (id, qkey) | None, response key | None, has_error, side whose data triggered it)
         self.to_server = []  # message bytes
         self.to_client = []
         self.closed_client = False
         self.crashed = None
         self.problems = []   # (bucket, msg) found while running (hook invariants)
-        self.overlapped = set()  # ids for which a query arrived while an earlier query with that id was unanswered
 
     def summary(self):
         return (self.hooks, [R.decode(m).key() if _dec_ok(m) else m for m in self.to_server],
@@ -150,21 +149,12 @@ def run_history(case, mode, cuts, single_cut=None):
     if case["up"] != "none":
         c.server.address = ("192.0.2.53", 53)
     obs = Obs()
-    sent_queries = []  # model: (id, qkey) of every well-formed query delivered to the proxy so far
-
-    pending = set()
+    cur = {"side": "c"}  # which peer's data is being delivered right now
 
     def hook_policy(hook):
         f = hook.flow
         req = getattr(f, "request", None)
         rk = None
-        if req is not None:
-            if hook.name == "dns_request":
-                if req.id in pending:
-                    obs.overlapped.add(req.id)
-                pending.add(req.id)
-            else:
-                pending.discard(req.id)
         if req is None:
             obs.problems.append(("hook-flow-without-request:" + hook.name, "the DNSFlow passed to %s has no request" % hook.name))
         else:
@@ -185,7 +175,7 @@ def run_history(case, mode, cuts, single_cut=None):
                 pk = R.decode(resp.packed).key()
             except Exception as e:  # noqa
                 obs.problems.append(("hook-response-unencodable:" + hook.name, repr(e)))
-        obs.hooks.append((hook.name, rk, pk, f.error is not None))
+        obs.hooks.append((hook.name, rk, pk, f.error is not None, cur["side"]))
         return None
 
     conn_policy = (lambda cmd: "connection refused") if case["up"] == "fail" else None
@@ -193,7 +183,6 @@ def run_history(case, mode, cuts, single_cut=None):
     d.start()
 
     # --- build the event list: (side, bytes, op index)
-    forwarded = []   # descs of queries in the order the model expects them to reach upstream
     replies = []     # wire of replies sent so far
     events = []
     queries = []     # (op index, desc)
@@ -237,6 +226,7 @@ def run_history(case, mode, cuts, single_cut=None):
         conn = c.client if side == "c" else c.server
         if side == "s" and not (conn.connected):
             return False
+        cur["side"] = side
         d.recv(conn, data)
         return True
 
@@ -328,7 +318,6 @@ def check_case(case, ctx):
     ops = case["ops"]
     interesting = scenario(case) != "plain" or any(op[0] == "r" and op[2] == "dup" for op in ops)
 
-    # ---- model of what the client sent (aligned run): queries delivered before the connection was closed/errored
     if obs.crashed is not None:
         ctx.fail(driver.crash_bucket(obs.crashed) + ":" + sc, "layer raised %r" % (obs.crashed,))
         return
@@ -351,12 +340,14 @@ def check_case(case, ctx):
         for b, msg in o.problems:
             if not b.startswith("$"):
                 ctx.fail("%s:%s" % (b, "unsolicited" if has_unsol else "no-unsolicited"), "[%s] %s" % (label, msg))
-        for name, rk, pk, err in o.hooks:
+        for name, rk, pk, _err, side in o.hooks:
             if rk is not None and rk not in sentset:
                 ctx.fail("hook-flow-foreign-request:%s:%s" % (name, idc(rk[0])), "[%s] flow.request %r was never sent by the client" % (label, rk))
             if name == "dns_response" and rk is not None and pk is not None:
                 if (pk[0][0], pk[1]) != rk:
-                    ctx.fail("hook-response-mismatch:%s" % (idc(rk[0]) + ("-outstanding" if rk[0] in o.overlapped else "")),
+                    # while client data is processed: a stale response kept in a reused flow; while upstream data is
+                    # processed: a reply paired (by id alone) with another query that used the same id
+                    ctx.fail("hook-response-mismatch:%s" % (idc(rk[0]) + ("-late-reply" if side == "s" else "")),
                              "[%s] dns_response flow carries request %r but response id/question %r" % (label, rk, (pk[0][0], pk[1])))
         for m in o.to_client:
             try:
